@@ -86,6 +86,22 @@ pub fn decode_dump(
     d: &Dump,
     metric_of: &dyn Fn(u16) -> Option<(Metric, usize)>,
 ) -> Result<BTreeMap<u16, DecodedIndex>, String> {
+    let (out, deviations) = decode_dump_lenient(d, metric_of)?;
+    match deviations.into_iter().next() {
+        Some(e) => Err(e),
+        None => Ok(out),
+    }
+}
+
+/// Same, but deviations confined to the *value* of a record whose content does not take part in the
+/// structure (the value of an updated mark, the length of a version record) are returned beside the
+/// decoded database instead of ending the decoding: they are C16's findings, and the other
+/// properties can still be evaluated on the decoded structure.
+pub fn decode_dump_lenient(
+    d: &Dump,
+    metric_of: &dyn Fn(u16) -> Option<(Metric, usize)>,
+) -> Result<(BTreeMap<u16, DecodedIndex>, Vec<String>), String> {
+    let mut deviations: Vec<String> = Vec::new();
     let mut out: BTreeMap<u16, DecodedIndex> = BTreeMap::new();
     let mut prev: Option<(u16, u8, u32)> = None;
     for (k, v) in d {
@@ -116,16 +132,17 @@ pub fn decode_dump(
                 0 => e.meta = Some(decode_meta(v).map_err(|s| format!("metadata of index {index}: {s}"))?),
                 1 => {
                     if v.len() != 12 {
-                        return Err(format!("version record of {} bytes in index {index}", v.len()));
+                        deviations.push(format!("version record of {} bytes in index {index}", v.len()));
+                    } else {
+                        let f = |i: usize| u32::from_be_bytes(v[i..i + 4].try_into().unwrap());
+                        e.version = Some((f(0), f(4), f(8)));
                     }
-                    let f = |i: usize| u32::from_be_bytes(v[i..i + 4].try_into().unwrap());
-                    e.version = Some((f(0), f(4), f(8)));
                 }
                 other => return Err(format!("metadata key with id {other} in index {index}")),
             },
             KIND_UPDATED => {
                 if !v.is_empty() {
-                    return Err(format!("updated mark {id} of index {index} has a {}-byte value", v.len()));
+                    deviations.push(format!("updated mark {id} of index {index} has a {}-byte value", v.len()));
                 }
                 e.updated.insert(id);
             }
@@ -153,7 +170,7 @@ pub fn decode_dump(
             _ => unreachable!(),
         }
     }
-    Ok(out)
+    Ok((out, deviations))
 }
 
 pub fn decode_meta(v: &[u8]) -> Result<Meta, String> {
